@@ -270,6 +270,76 @@ Definition served_tag (used : list (N * code)) (s : chain) (c : text) : option N
 Definition simple_admin (m : msg) : bool :=
   match m with MMigrate _ _ p => clean_prog p | MUpdateAdmin _ _ | MClearAdmin _ => true | _ => false end.
 
+(* a program whose body returns exactly one sub-message, an admin operation that dispatches nothing further, with
+   reply programs that dispatch nothing further: (node, id, payload, reply_on, operation, target) *)
+Definition single_admin_sub (p : prog) : option (N * N * bytes * reply_on * msg * text) :=
+  match p with
+  | Prog node _ (OResp _ _ _ (SCons (Sub id pl ro m' k1 k2) SNil)) =>
+      if clean_prog k1 && clean_prog k2 && simple_admin m'
+      then match admin_msg m' with Some c => Some (node, id, pl, ro, m', c) | None => None end
+      else None
+  | _ => None
+  end.
+
+(* the contract D that runs the root program of a top-level call, and what the registry holds for each contract
+   when that program starts: the state before the call, except that a migration has already recorded the new code
+   id of its target and an instantiation has already registered the new contract *)
+Definition site_of_op (prev : chain) (b : blockinfo) (op : topop) (tr : trace)
+  : option (text * (text -> option cdata) * prog) :=
+  match op with
+  | TExec _ (MExec d p _) | TWasmSudo d p => Some (d, fun c => lookup c (reg prev), p)
+  | TExec _ (MMigrate x n p) =>
+      Some (x, fun c => if teqb c x then option_map (fun cd => migrated cd n) (lookup x (reg prev))
+                        else lookup c (reg prev), p)
+  | TExec sender (MInst id p _ label adminp _) =>
+      match root_callee p tr with
+      | Some a => Some (a, fun c => if teqb c a
+                                    then Some {| cd_code := id; cd_creator := sender; cd_admin := adminp;
+                                                 cd_label := label; cd_created := b_height b |}
+                                    else lookup c (reg prev), p)
+      | None => None
+      end
+  | _ => None
+  end.
+
+Definition site_clauses (base : N) (prev : chain) (tr : trace) (ok : bool) (s' : chain) (D : text) (bcd : text -> option cdata)
+           (site : N * N * bytes * reply_on * msg * text) : list (N * bool) :=
+  let '(node, id, pl, ro, m', c) := site in
+  let sr := sub_result tr D id pl ro ok in
+  [(base, implb (match sr with Some true => true | _ => false end)                          (* the DISPATCHER must be the admin *)
+             (option_eqb (option_eqb teqb) (option_map cd_admin (bcd c)) (Some (Some D))));
+   (base + 1, implb (ok && match sr with Some false => true | _ => false end)            (* refused and caught: target untouched *)
+             (option_eqb cdata_eqb (lookup c (reg s')) (bcd c)
+              && (teqb c D || list_eqb kv_eqb (cstore_get s' c) (cstore_get prev c))));
+   (base + 2, implb (ok && match sr with Some true => true | _ => false end) (effect_visible s' m'))].
+
+(* messages that dispatch nothing, run no contract code and do not touch the registry *)
+Definition quiet_msg (m : msg) : bool :=
+  match m with MBankSend _ _ | MBankBurn _ | MCustom _ _ => true | _ => false end.
+
+(* the same one level down: the root program (execute / sudo) of contract d returns one quiet sub-message (id1, pl1);
+   the reply program K that answers it (want = true: the success branch, false: the failure branch) — known to
+   have run because the log shows that reply being delivered — returns an admin operation as ITS only sub-message *)
+Definition reply_site_clauses (prev : chain) (tr : trace) (ok : bool) (s' : chain) (d : text) (id1 : N) (pl1 : bytes)
+           (K : prog) (want : bool) : list (N * bool) :=
+  match single_admin_sub K with
+  | Some (node, id, pl, ro, m', c) =>
+      if option_eqb Bool.eqb (find_reply d id1 pl1 tr) (Some want) && negb ((id =? id1) && beqb pl pl1)
+      then site_clauses 12 prev tr ok s' d (fun x => lookup x (reg prev)) (node, id, pl, ro, m', c)
+      else []
+  | None => []
+  end.
+
+Definition reply_sites (prev : chain) (op : topop) (tr : trace) (ok : bool) (s' : chain) : list (N * bool) :=
+  match op with
+  | TExec _ (MExec d (Prog _ _ (OResp _ _ _ (SCons (Sub id1 pl1 _ mo K1 K2) SNil))) _)
+  | TWasmSudo d (Prog _ _ (OResp _ _ _ (SCons (Sub id1 pl1 _ mo K1 K2) SNil))) =>
+      if quiet_msg mo
+      then reply_site_clauses prev tr ok s' d id1 pl1 K1 true ++ reply_site_clauses prev tr ok s' d id1 pl1 K2 false
+      else []
+  | _ => []
+  end.
+
 Definition p12_top (rc : reg_case_env) (sg : ost) (b : blockinfo) (op : topop) (tr : trace)
            (o : outcome (list resp)) (s' : chain) (raw : bool) : list (N * bool) :=
   let prev := o_prev sg in
@@ -292,25 +362,24 @@ Definition p12_top (rc : reg_case_env) (sg : ost) (b : blockinfo) (op : topop) (
                                   teqb c c' && (tag =? c_tag co) && implb (clean_prog p) (count_calls (node_of p) tr =? 1)
                               | _, _ => false end)
                 | _ => true end)]
-       | None =>
-           match m with
-           | MExec d (Prog node _ (OResp _ _ _ (SCons (Sub id pl ro m' k1 k2) SNil))) _ =>
-               match (if clean_prog k1 && clean_prog k2 && simple_admin m' then admin_msg m' else None) with
-               | Some c =>
-                   let sr := sub_result tr d id pl ro ok in
-                   [(6, implb (match sr with Some true => true | _ => false end) (is_admin prev c d));   (* the DISPATCHER must be the admin *)
-                    (7, implb (ok && match sr with Some false => true | _ => false end)                  (* refused and caught: c untouched *)
-                              (option_eqb cdata_eqb (lookup c (reg s')) (lookup c (reg prev))
-                               && (teqb c d || list_eqb kv_eqb (cstore_get s' c) (cstore_get prev c))));
-                    (8, implb (ok && match sr with Some true => true | _ => false end) (effect_visible s' m'));
-                    (9, implb (negb ok) raw)]
-               | None => []
-               end
-           | _ => []
-           end
+       | None => []
        end
    | _ => []
    end) ++
+  (* an admin operation returned as the only sub-message by the body of the ROOT program of the call — whatever its
+     entry point: execute, sudo, instantiate and in particular MIGRATE — acts in the name of the contract D that
+     ran that body (never of the account that sent the call): it succeeds only if D is the admin recorded for its
+     target just before; refused and caught, it leaves the target as it was; accepted, its effect is visible *)
+  (match site_of_op prev b op tr with
+   | Some (D, bcd, p) =>
+       match single_admin_sub p with
+       | Some site => site_clauses 6 prev tr ok s' D bcd site
+       | None => []
+       end
+   | None => []
+   end) ++
+  reply_sites prev op tr ok s' ++
+  (match op with TExec _ _ | TWasmSudo _ _ => [(9, implb (negb ok) raw)] | _ => [] end) ++
   (* calls are served by the code the registry named before the call (after a migration: the new one) *)
   (match op with
    | TExec _ (MExec c p _) | THelperExec _ (MExec c p _) | TWasmSudo c p =>
@@ -881,74 +950,69 @@ Proof.
   - rewrite lookup_update_other by exact Hne. reflexivity.
 Qed.
 
-Lemma nested_cases e sender d node acts attrs events data id pl ro m' k1 k2 funds s :
+(* one program whose body returns a single simple admin sub-message with clean reply programs: the complete run *)
+Lemma single_sub_cases e entry D sender funds rep cid rok node acts attrs events data id pl ro m' k1 k2 s :
   clean_prog k1 = true -> clean_prog k2 = true -> simple_admin m' = true ->
-  match run_msg e sender (MExec d (Prog node acts (OResp attrs events data (SCons (Sub id pl ro m' k1 k2) SNil))) funds) s with
+  match run_prog e entry D sender funds rep cid rok
+                 (Prog node acts (OResp attrs events data (SCons (Sub id pl ro m' k1 k2) SNil))) s with
   | (tr, Ok (_, s')) =>
-      exists s2, reg s2 = reg s /\ (forall c', c' <> d -> cstore_get s2 c' = cstore_get s c') /\
-        match outc (run_msg e d m' s2) with
-        | Ok (_, s3) => find_reply d id pl tr = (if wants_ok ro then Some true else None) /\ reg s' = reg s3
-        | Err => wants_err ro = true /\ find_reply d id pl tr = Some false /\ reg s' = reg s2 /\
-                 (forall c', c' <> d -> cstore_get s' c' = cstore_get s2 c')
+      exists tag rest s2, tr = RCall node entry D sender funds (blk e) tag rep :: rest /\
+        reg s2 = reg s /\ (forall c', c' <> D -> cstore_get s2 c' = cstore_get s c') /\
+        match outc (run_msg e D m' s2) with
+        | Ok (_, s3) => find_reply D id pl rest = (if wants_ok ro then Some true else None) /\ reg s' = reg s3
+        | Err => wants_err ro = true /\ find_reply D id pl rest = Some false /\ reg s' = reg s2 /\
+                 (forall c', c' <> D -> cstore_get s' c' = cstore_get s2 c')
         | Panic => False
         end
-  | (tr, _) => find_reply d id pl tr = None
+  | (tr, _) => tr = [] \/ exists tag rest, tr = RCall node entry D sender funds (blk e) tag rep :: rest /\
+                                           find_reply D id pl rest = None
   end.
 Proof.
-  intros Hk1 Hk2 Hsm. rewrite exec_runs_after_funds.
-  destruct (negb (is_valid e d)); [reflexivity|].
-  destruct (move_funds s sender d funds) as [s1| |] eqn:Emf; try reflexivity.
-  apply move_funds_spec in Emf. destruct Emf as [Ereg [Ecs _]].
-  cbn [run_prog]. destruct (lookup d (reg s1)) as [cd|]; [|reflexivity].
-  destruct (find_code (cd_code cd) (codes e)) as [co|]; [|reflexivity].
-  destruct (negb (ep_available co EExec)); [reflexivity|].
-  pose proof (actions_no_calls e s1 node acts (cstore_get s1 d)) as Hobs.
-  destruct (run_actions e s1 node (cstore_get s1 d) acts) as [tr_a own']. cbn [fst] in Hobs.
+  intros Hk1 Hk2 Hsm. cbn [run_prog]. destruct (lookup D (reg s)) as [cd|]; [|left; reflexivity].
+  destruct (find_code (cd_code cd) (codes e)) as [co|]; [|left; reflexivity].
+  destruct (negb (ep_available co entry)); [left; reflexivity|].
+  pose proof (actions_no_calls e s node acts (cstore_get s D)) as Hobs.
+  destruct (run_actions e s node (cstore_get s D) acts) as [tr_a own']. cbn [fst] in Hobs.
   apply not_call_no_reply in Hobs.
-  set (hdr := RCall node EExec d (Some sender) funds (blk e) (c_tag co) None).
-  assert (Hhdr : no_reply_entry hdr) by exact I.
   destruct (verify_response attrs events).
-  { cbv beta iota zeta. apply find_reply_none. constructor; assumption. }
-  set (s2 := cstore_set s1 d own').
-  assert (Hr2 : reg s2 = reg s) by exact Ereg.
-  assert (Hc2 : forall c', c' <> d -> cstore_get s2 c' = cstore_get s c').
-  { intros c' Hne. unfold s2. rewrite cstore_get_set_other' by exact Hne. unfold cstore_get. rewrite Ecs. reflexivity. }
+  { right. exists (c_tag co), tr_a. split; [reflexivity|]. apply find_reply_none. exact Hobs. }
+  set (s2 := cstore_set s D own').
+  assert (Hr2 : reg s2 = reg s) by reflexivity.
+  assert (Hc2 : forall c', c' <> D -> cstore_get s2 c' = cstore_get s c').
+  { intros c' Hne. unfold s2. apply cstore_get_set_other'. exact Hne. }
   rewrite process_subs_cons, run_sub_spec. unfold reply_run.
-  pose proof (simple_admin_no_reply e d m' s2 Hsm) as Hnr.
-  destruct (run_msg e d m' s2) as [trm [[[evm dm] s3]| |]] eqn:Em'; cbn [trc fst] in Hnr.
+  pose proof (simple_admin_no_reply e D m' s2 Hsm) as Hnr.
+  destruct (run_msg e D m' s2) as [trm [[[evm dm] s3]| |]] eqn:Em'; cbn [trc fst] in Hnr.
   - destruct (wants_ok ro) eqn:Ew.
-    + destruct (clean_prog_run e EReply d None [] (Some (id, pl, RROk evm dm)) 0 true k1 s3 Hk1)
+    + destruct (clean_prog_run e EReply D None [] (Some (id, pl, RROk evm dm)) 0 true k1 s3 Hk1)
         as [->|[tag [obs [ev2 [d2 [own2 [Hobs2 ->]]]]]]].
-      * cbv beta iota zeta. apply find_reply_none. constructor; [exact Hhdr|].
-        apply Forall_app. split; [exact Hobs|]. rewrite app_nil_r. exact Hnr.
+      * cbv beta iota zeta. right. exists (c_tag co), (tr_a ++ trm ++ []). split; [reflexivity|].
+        apply find_reply_none. apply Forall_app. split; [exact Hobs|]. rewrite app_nil_r. exact Hnr.
       * cbv beta iota zeta. cbn [process_subs]. cbv beta iota zeta.
-        exists s2. split; [exact Hr2|]. split; [exact Hc2|]. rewrite Em'. cbn [outc snd]. split; [|reflexivity].
-        change (hdr :: tr_a ++ (trm ++ RCall (node_of k1) EReply d None [] (blk e) tag (Some (id, pl, RROk evm dm)) :: obs) ++ [])
-          with ([hdr] ++ (tr_a ++ (trm ++ RCall (node_of k1) EReply d None [] (blk e) tag (Some (id, pl, RROk evm dm)) :: obs) ++ [])).
-        rewrite find_reply_skip by (constructor; [exact Hhdr|constructor]).
+        exists (c_tag co), (tr_a ++ (trm ++ RCall (node_of k1) EReply D None [] (blk e) tag (Some (id, pl, RROk evm dm)) :: obs) ++ []), s2.
+        split; [reflexivity|]. split; [exact Hr2|]. split; [exact Hc2|]. rewrite Em'. cbn [outc snd]. split; [|reflexivity].
         rewrite find_reply_skip by exact Hobs. rewrite <- app_assoc. rewrite find_reply_skip by exact Hnr.
         cbn [app find_reply]. rewrite teqb_refl, N.eqb_refl, beqb_refl. reflexivity.
     + cbv beta iota zeta. cbn [process_subs]. cbv beta iota zeta.
-      exists s2. split; [exact Hr2|]. split; [exact Hc2|]. rewrite Em'. cbn [outc snd]. split; [|reflexivity].
-      apply find_reply_none. constructor; [exact Hhdr|]. apply Forall_app. split; [exact Hobs|].
+      exists (c_tag co), (tr_a ++ trm ++ []), s2.
+      split; [reflexivity|]. split; [exact Hr2|]. split; [exact Hc2|]. rewrite Em'. cbn [outc snd]. split; [|reflexivity].
+      apply find_reply_none. apply Forall_app. split; [exact Hobs|].
       apply Forall_app. split; [exact Hnr|constructor].
   - destruct (wants_err ro) eqn:Ew.
-    + destruct (clean_prog_run e EReply d None [] (Some (id, pl, RRErr)) 0 false k2 s2 Hk2)
+    + destruct (clean_prog_run e EReply D None [] (Some (id, pl, RRErr)) 0 false k2 s2 Hk2)
         as [->|[tag [obs [ev2 [d2 [own2 [Hobs2 ->]]]]]]].
-      * cbv beta iota zeta. apply find_reply_none. constructor; [exact Hhdr|].
-        apply Forall_app. split; [exact Hobs|]. rewrite app_nil_r. exact Hnr.
+      * cbv beta iota zeta. right. exists (c_tag co), (tr_a ++ trm ++ []). split; [reflexivity|].
+        apply find_reply_none. apply Forall_app. split; [exact Hobs|]. rewrite app_nil_r. exact Hnr.
       * cbv beta iota zeta. cbn [process_subs]. cbv beta iota zeta.
-        exists s2. split; [exact Hr2|]. split; [exact Hc2|]. rewrite Em'. cbn [outc snd].
+        exists (c_tag co), (tr_a ++ (trm ++ RCall (node_of k2) EReply D None [] (blk e) tag (Some (id, pl, RRErr)) :: obs) ++ []), s2.
+        split; [reflexivity|]. split; [exact Hr2|]. split; [exact Hc2|]. rewrite Em'. cbn [outc snd].
         split; [reflexivity|]. split; [|split; [reflexivity|intros c' Hne; apply cstore_get_set_other'; exact Hne]].
-        change (hdr :: tr_a ++ (trm ++ RCall (node_of k2) EReply d None [] (blk e) tag (Some (id, pl, RRErr)) :: obs) ++ [])
-          with ([hdr] ++ (tr_a ++ (trm ++ RCall (node_of k2) EReply d None [] (blk e) tag (Some (id, pl, RRErr)) :: obs) ++ [])).
-        rewrite find_reply_skip by (constructor; [exact Hhdr|constructor]).
         rewrite find_reply_skip by exact Hobs. rewrite <- app_assoc. rewrite find_reply_skip by exact Hnr.
         cbn [app find_reply]. rewrite teqb_refl, N.eqb_refl, beqb_refl. reflexivity.
-    + cbv beta iota zeta. apply find_reply_none. constructor; [exact Hhdr|].
-      apply Forall_app. split; [exact Hobs|exact Hnr].
-  - cbv beta iota zeta. apply find_reply_none. constructor; [exact Hhdr|].
-    apply Forall_app. split; [exact Hobs|exact Hnr].
+    + cbv beta iota zeta. right. exists (c_tag co), (tr_a ++ trm). split; [reflexivity|].
+      apply find_reply_none. apply Forall_app. split; [exact Hobs|exact Hnr].
+  - cbv beta iota zeta. right. exists (c_tag co), (tr_a ++ trm). split; [reflexivity|].
+    apply find_reply_none. apply Forall_app. split; [exact Hobs|exact Hnr].
 Qed.
 
 Lemma admin_effect e d m' c s2 r s3 s' : admin_msg m' = Some c -> simple_admin m' = true ->
@@ -965,49 +1029,354 @@ Proof.
   - apply clear_admin_authorised in Hout. destruct Hout as [cd [_ [_ [Hr _]]]]. rewrite Hr, lookup_update_same. reflexivity.
 Qed.
 
-Lemma nested12_model_ok rc t s b sender d node acts attrs events data id pl ro m' k1 k2 funds c :
-  clean_prog k1 = true -> clean_prog k2 = true -> simple_admin m' = true -> admin_msg m' = Some c ->
-  let x := run_top (senv rc t b)
-             (TExec sender (MExec d (Prog node acts (OResp attrs events data (SCons (Sub id pl ro m' k1 k2) SNil))) funds)) s in
-  let prev := s in
-  let tr := top_trace x in let s' := top_state x in let ok := is_okb (top_outcome x) in let raw := chain_eqb s' s in
-  let sr := sub_result tr d id pl ro ok in
-  all_ok
-    [(6, implb (match sr with Some true => true | _ => false end) (is_admin prev c d));
-     (7, implb (ok && match sr with Some false => true | _ => false end)
-               (option_eqb cdata_eqb (lookup c (reg s')) (lookup c (reg prev))
-                && (teqb c d || list_eqb kv_eqb (cstore_get s' c) (cstore_get prev c))));
-     (8, implb (ok && match sr with Some true => true | _ => false end) (effect_visible s' m'));
-     (9, implb (negb ok) raw)].
+Lemma single_admin_sub_inv p site : single_admin_sub p = Some site ->
+  exists node acts attrs events data id pl ro m' k1 k2 c,
+    p = Prog node acts (OResp attrs events data (SCons (Sub id pl ro m' k1 k2) SNil)) /\ site = (node, id, pl, ro, m', c) /\
+    clean_prog k1 = true /\ clean_prog k2 = true /\ simple_admin m' = true /\ admin_msg m' = Some c.
 Proof.
-  intros Hk1 Hk2 Hsm Hm. cbn zeta. rewrite run_top_exec.
-  pose proof (nested_cases (senv rc t b) sender d node acts attrs events data id pl ro m' k1 k2 funds s Hk1 Hk2 Hsm) as Hn.
-  destruct (run_msg (senv rc t b) sender (MExec d (Prog node acts (OResp attrs events data (SCons (Sub id pl ro m' k1 k2) SNil))) funds) s)
-    as [tr [[r s1]| |]]; cbn [top_trace top_outcome top_state fst snd is_okb].
-  - rewrite app_nil_r. destruct Hn as [s2 [Hr2 [Hc2 Hn]]].
-    destruct (outc (run_msg (senv rc t b) d m' s2)) as [[r3 s3]| |] eqn:Eo; [| |contradiction].
-    + destruct Hn as [Hfr Hreg].
-      assert (Hsr : sub_result tr d id pl ro true = Some true).
-      { unfold sub_result. rewrite Hfr. destruct ro; reflexivity. }
-      rewrite Hsr. destruct (admin_ops_need_admin _ _ _ _ _ _ _ (admin_msg_on _ _ Hm) Eo) as [cd [Hl Had]].
+  destruct p as [node acts [|attrs events data [|[id pl ro m' k1 k2] [|sb2 r2]]]]; cbn [single_admin_sub]; try discriminate.
+  destruct (clean_prog k1 && clean_prog k2 && simple_admin m') eqn:Ec; [|discriminate].
+  destruct (admin_msg m') as [c|] eqn:Em; [|discriminate]. intros H. injection H as <-.
+  apply andb_true_iff in Ec. destruct Ec as [Ec Hsm]. apply andb_true_iff in Ec. destruct Ec as [Hk1 Hk2].
+  exists node, acts, attrs, events, data, id, pl, ro, m', k1, k2, c. auto 10.
+Qed.
+
+Lemma find_reply_cons_other d id pl en rest : no_reply_entry en -> find_reply d id pl (en :: rest) = find_reply d id pl rest.
+Proof. intros H. apply (find_reply_skip d id pl [en] rest). constructor; [exact H|constructor]. Qed.
+
+(* the call never reached the root program, or the program failed before dispatching: nothing is claimed *)
+Lemma site_trivial base prev tr s' D bcd site :
+  (let '(node, id, pl, ro, m', c) := site in find_reply D id pl tr = None) ->
+  all_ok (site_clauses base prev tr false s' D bcd site).
+Proof.
+  destruct site as [[[[[node id] pl] ro] m'] c]. intros H. unfold site_clauses.
+  assert (Hsr : sub_result tr D id pl ro false = None) by (unfold sub_result; rewrite H; reflexivity).
+  rewrite Hsr. repeat (apply all_ok_cons; [reflexivity|]). apply all_ok_nil.
+Qed.
+
+(* a program with a single admin sub-message, running as contract D at the END of a top-level call (its own log is
+   the tail of the call's log; what precedes it holds no reply entry), whose header is not mistaken for the reply
+   to its own sub-message; the call succeeds iff it does *)
+Lemma site_model_ok base e entry D sender funds rep cid rok p s_p prev pre tr ok s' bcd site :
+  single_admin_sub p = Some site ->
+  (let '(node, id, pl, ro, m', c) := site in
+   forall tag rest, find_reply D id pl (RCall node entry D sender funds (blk e) tag rep :: rest) = find_reply D id pl rest) ->
+  Forall no_reply_entry pre ->
+  (forall c, lookup c (reg s_p) = bcd c) -> (forall c, c <> D -> cstore_get s_p c = cstore_get prev c) ->
+  match run_prog e entry D sender funds rep cid rok p s_p with
+  | (trp, Ok (_, sp')) => tr = pre ++ trp /\ ok = true /\ s' = sp'
+  | (trp, _) => tr = pre ++ trp /\ ok = false
+  end ->
+  all_ok (site_clauses base prev tr ok s' D bcd site).
+Proof.
+  intros Hsite Hskip Hpre Hbcd Hcst Htop.
+  destruct (single_admin_sub_inv p site Hsite) as
+    [node [acts [attrs [events [data [id [pl [ro [m' [k1 [k2 [c [-> [-> [Hk1 [Hk2 [Hsm Hm]]]]]]]]]]]]]]]]].
+  pose proof (single_sub_cases e entry D sender funds rep cid rok node acts attrs events data id pl ro m' k1 k2 s_p Hk1 Hk2 Hsm) as Hn.
+  destruct (run_prog e entry D sender funds rep cid rok
+              (Prog node acts (OResp attrs events data (SCons (Sub id pl ro m' k1 k2) SNil))) s_p) as [trp [[r sp']| |]].
+  - destruct Htop as [-> [-> ->]]. destruct Hn as [tag [rest [s2 [-> [Hr2 [Hc2 Hn]]]]]].
+    unfold site_clauses, sub_result. rewrite (find_reply_skip D id pl pre _ Hpre), Hskip.
+    destruct (outc (run_msg e D m' s2)) as [[r3 s3]| |] eqn:Eo; [| |contradiction].
+    + destruct Hn as [Hfr Hreg]. rewrite Hfr.
+      assert (Hsr : match (if wants_ok ro then Some true else None) with
+                    | Some b => Some b
+                    | None => match ro with RNever | RError => Some true | _ => None end end = Some true)
+        by (destruct ro; reflexivity).
+      cbv beta iota. rewrite Hsr.
+      destruct (admin_ops_need_admin _ _ _ _ _ _ _ (admin_msg_on _ _ Hm) Eo) as [cd [Hl Had]].
       apply all_ok_cons.
-      { cbn [implb negb orb]. unfold is_admin, admin_of. rewrite <- Hr2, Hl. cbn [option_map]. rewrite Had. apply oo_teqb_refl. }
+      { cbn [implb negb orb]. rewrite <- Hbcd, <- Hr2, Hl. cbn [option_map]. rewrite Had. apply oo_teqb_refl. }
       apply all_ok_cons; [reflexivity|].
-      apply all_ok_cons; [cbn [andb implb negb orb]; eapply admin_effect; eauto|].
-      apply all_ok_cons; [reflexivity|apply all_ok_nil].
-    + destruct Hn as [_ [Hfr [Hreg Hcs]]].
-      assert (Hsr : sub_result tr d id pl ro true = Some false) by (unfold sub_result; rewrite Hfr; reflexivity).
-      rewrite Hsr. apply all_ok_cons; [reflexivity|].
+      apply all_ok_cons; [cbn [andb implb negb orb]; eapply admin_effect; eauto|]. apply all_ok_nil.
+    + destruct Hn as [_ [Hfr [Hreg Hcs]]]. rewrite Hfr. cbv beta iota.
+      apply all_ok_cons; [reflexivity|].
       apply all_ok_cons.
-      { cbn [andb implb negb orb]. rewrite Hreg, Hr2. rewrite (option_eqb_refl cdata_eqb cdata_eqb_refl). cbn [andb].
-        destruct (teqb c d) eqn:Ecd; [reflexivity|]. cbn [orb].
-        assert (Hne : c <> d) by (intros ->; rewrite teqb_refl in Ecd; discriminate).
-        rewrite (Hcs c Hne), (Hc2 c Hne). apply kvs_eqb_refl. }
-      apply all_ok_cons; [reflexivity|]. apply all_ok_cons; [reflexivity|apply all_ok_nil].
-  - assert (Hsr : sub_result tr d id pl ro false = None) by (unfold sub_result; rewrite Hn; reflexivity).
-    rewrite Hsr, chain_eqb_refl. repeat (apply all_ok_cons; [reflexivity|]). apply all_ok_nil.
-  - assert (Hsr : sub_result tr d id pl ro false = None) by (unfold sub_result; rewrite Hn; reflexivity).
-    rewrite Hsr, chain_eqb_refl. repeat (apply all_ok_cons; [reflexivity|]). apply all_ok_nil.
+      { cbn [andb implb negb orb]. rewrite Hreg, Hr2, Hbcd. rewrite (option_eqb_refl cdata_eqb cdata_eqb_refl). cbn [andb].
+        destruct (teqb c D) eqn:Ecd; [reflexivity|]. cbn [orb].
+        assert (Hne : c <> D) by (intros ->; rewrite teqb_refl in Ecd; discriminate).
+        rewrite (Hcs c Hne), (Hc2 c Hne), (Hcst c Hne). apply kvs_eqb_refl. }
+      apply all_ok_cons; [reflexivity|apply all_ok_nil].
+  - destruct Htop as [-> ->]. apply site_trivial. rewrite (find_reply_skip D id pl pre _ Hpre).
+    destruct Hn as [->|[tag [rest [-> Hn]]]]; [reflexivity|]. rewrite Hskip. exact Hn.
+  - destruct Htop as [-> ->]. apply site_trivial. rewrite (find_reply_skip D id pl pre _ Hpre).
+    destruct Hn as [->|[tag [rest [-> Hn]]]]; [reflexivity|]. rewrite Hskip. exact Hn.
+Qed.
+
+Lemma root_skip e entry D sender funds rep (site : N * N * bytes * reply_on * msg * text) : entry <> EReply ->
+  let '(node, id, pl, ro, m', c) := site in
+  forall tag rest, find_reply D id pl (RCall node entry D sender funds (blk e) tag rep :: rest) = find_reply D id pl rest.
+Proof.
+  intros Hent. destruct site as [[[[[node id] pl] ro] m'] c]. intros tag rest. apply find_reply_cons_other.
+  destruct entry; try exact I. congruence.
+Qed.
+
+Lemma root_site_model_ok e entry D sender funds rep cid rok p s_p prev tr ok s' bcd site :
+  entry <> EReply -> single_admin_sub p = Some site ->
+  (forall c, lookup c (reg s_p) = bcd c) -> (forall c, cstore_get s_p c = cstore_get prev c) ->
+  match run_prog e entry D sender funds rep cid rok p s_p with
+  | (trp, Ok (_, sp')) => tr = trp /\ ok = true /\ s' = sp'
+  | (trp, _) => tr = trp /\ ok = false
+  end ->
+  all_ok (site_clauses 6 prev tr ok s' D bcd site).
+Proof.
+  intros Hent Hsite Hb Hc Htop.
+  apply (site_model_ok 6 e entry D sender funds rep cid rok p s_p prev [] tr ok s' bcd site Hsite
+           (root_skip e entry D sender funds rep site Hent) (Forall_nil _) Hb (fun c _ => Hc c)).
+  exact Htop.
+Qed.
+
+Lemma site_trivial_nil base prev s' D bcd site : all_ok (site_clauses base prev [] false s' D bcd site).
+Proof. apply site_trivial. destruct site as [[[[[node id] pl] ro] m'] c]. reflexivity. Qed.
+
+Lemma sites_model_ok rc t s b op :
+  let x := run_top (senv rc t b) op s in
+  all_ok (match site_of_op s b op (top_trace x) with
+          | Some (D, bcd, p) =>
+              match single_admin_sub p with
+              | Some site => site_clauses 6 s (top_trace x) (is_okb (top_outcome x)) (top_state x) D bcd site
+              | None => []
+              end
+          | None => []
+          end).
+Proof.
+  cbn zeta. set (e := senv rc t b).
+  destruct op as [sender ms|sender m|d p|to amt|sender m|sender m]; cbn [site_of_op]; try apply all_ok_nil.
+  - destruct m as [| |d p funds|id p funds label adminp salt|x n p| | |]; cbn [site_of_op]; try apply all_ok_nil.
+    + (* execute *)
+      destruct (single_admin_sub p) as [site|] eqn:Hsite; [|apply all_ok_nil].
+      rewrite run_top_exec, exec_runs_after_funds.
+      destruct (negb (is_valid e d)); [apply site_trivial_nil|].
+      destruct (move_funds s sender d funds) as [s1| |] eqn:Emf; try apply site_trivial_nil.
+      apply move_funds_spec in Emf. destruct Emf as [Ereg [Ecs _]].
+      assert (Hb : forall c, lookup c (reg s1) = lookup c (reg s)) by (intros c; rewrite Ereg; reflexivity).
+      assert (Hc : forall c, cstore_get s1 c = cstore_get s c) by (intros c; unfold cstore_get; rewrite Ecs; reflexivity).
+      destruct (run_prog e EExec d (Some sender) funds None 0 true p s1) as [trp [[[ev dd] sp']| |]] eqn:Ep;
+        cbn [top_trace top_outcome top_state fst snd is_okb];
+        apply (root_site_model_ok e EExec d (Some sender) funds None 0 true p s1 s _ _ _ _ site); try assumption; try discriminate;
+        rewrite Ep; repeat split; try reflexivity. apply app_nil_r.
+    + (* instantiate *)
+      rewrite run_top_exec. cbn [run_msg].
+      destruct label as [|l0 lr]; [apply all_ok_nil|].
+      destruct (register_contract e s id sender adminp (l0 :: lr) salt) as [[a s1]| |] eqn:Er; try apply all_ok_nil.
+      destruct (move_funds s1 sender a funds) as [s2| |] eqn:Emf; try apply all_ok_nil.
+      apply move_funds_spec in Emf. destruct Emf as [Ereg [Ecs _]].
+      apply register_fresh in Er. destruct Er as [_ [_ [Hr1 [_ Hcs1]]]].
+      assert (Hb : forall c, lookup c (reg s2) =
+                             if teqb c a then Some {| cd_code := id; cd_creator := sender; cd_admin := adminp;
+                                                      cd_label := l0 :: lr; cd_created := b_height b |}
+                             else lookup c (reg s)).
+      { intros c. rewrite Ereg, Hr1, lookup_update. reflexivity. }
+      assert (Hc : forall c, cstore_get s2 c = cstore_get s c) by (intros c; unfold cstore_get; rewrite Ecs, Hcs1; reflexivity).
+      pose proof (run_prog_head e EInst a (Some sender) funds None id true p s2) as Hh.
+      destruct (serving e s2 a EInst) as [co|].
+      * destruct Hh as [rest Hrest].
+        destruct (run_prog e EInst a (Some sender) funds None id true p s2) as [trp [[[ev dd] sp']| |]] eqn:Ep;
+          cbn [trc fst] in Hrest; subst trp; cbn [top_trace top_outcome top_state fst snd is_okb app];
+          unfold root_callee; rewrite find_call_head; cbn [callee_of];
+          (destruct (single_admin_sub p) as [site|] eqn:Hsite; [|apply all_ok_nil]);
+          apply (root_site_model_ok e EInst a (Some sender) funds None id true p s2 s _ _ _ _ site); try assumption; try discriminate;
+          rewrite Ep; repeat split; try reflexivity. rewrite app_nil_r. reflexivity.
+      * rewrite Hh. apply all_ok_nil.
+    + (* migrate *)
+      destruct (single_admin_sub p) as [site|] eqn:Hsite; [|apply all_ok_nil].
+      rewrite run_top_exec. cbn [run_msg].
+      destruct (negb (is_valid e x)); [apply site_trivial_nil|].
+      destruct (find_code n (codes e)) as [co0|]; [|apply site_trivial_nil].
+      destruct (lookup x (reg s)) as [cd|] eqn:El; [|apply site_trivial_nil].
+      destruct (negb (option_eqb beqb (cd_admin cd) (Some sender))); [apply site_trivial_nil|].
+      fold (migrated cd n). set (s1 := set_reg s (update x (migrated cd n) (reg s))).
+      assert (Hb : forall c, lookup c (reg s1) =
+                             if teqb c x then option_map (fun cd0 => migrated cd0 n) (Some cd) else lookup c (reg s)).
+      { intros c. unfold s1. cbn [reg set_reg]. rewrite lookup_update. reflexivity. }
+      assert (Hc : forall c, cstore_get s1 c = cstore_get s c) by reflexivity.
+      destruct (run_prog e EMigrate x None [] None n true p s1) as [trp [[[ev dd] sp']| |]] eqn:Ep;
+        cbn [top_trace top_outcome top_state fst snd is_okb];
+        apply (root_site_model_ok e EMigrate x None [] None n true p s1 s _ _ _ _ site); try assumption; try discriminate;
+        rewrite Ep; repeat split; try reflexivity. apply app_nil_r.
+  - (* sudo *)
+    destruct (single_admin_sub p) as [site|] eqn:Hsite; [|apply all_ok_nil].
+    unfold top_trace, top_outcome, top_state. cbn [run_top].
+    assert (Hb : forall c, lookup c (reg s) = lookup c (reg s)) by reflexivity.
+    assert (Hc : forall c, cstore_get s c = cstore_get s c) by reflexivity.
+    destruct (run_prog e ESudo d None [] None 0 true p s) as [trp [[[ev dd] sp']| |]] eqn:Ep; cbn [fst snd is_okb];
+      apply (root_site_model_ok e ESudo d None [] None 0 true p s s _ _ _ _ site); try assumption; try discriminate;
+      rewrite Ep; repeat split; reflexivity.
+Qed.
+
+(* ---------- C12: the same one level down, in the reply program of a quiet sub-message ---------- *)
+Lemma reply_site_none prev tr ok s' d id1 pl1 K want :
+  find_reply d id1 pl1 tr = None -> reply_site_clauses prev tr ok s' d id1 pl1 K want = [].
+Proof.
+  intros H. unfold reply_site_clauses. destruct (single_admin_sub K) as [[[[[[node id] pl] ro] m'] c]|]; [|reflexivity].
+  rewrite H. reflexivity.
+Qed.
+
+Lemma quiet_msg_run e d mo s : quiet_msg mo = true ->
+  Forall no_reply_entry (trc (run_msg e d mo s)) /\
+  match outc (run_msg e d mo s) with Ok (_, s1) => reg s1 = reg s /\ cstore s1 = cstore s | _ => True end.
+Proof.
+  destruct mo as [to amt|amt| | | | | |okb tag]; cbn [quiet_msg]; try discriminate; intros _; cbn [run_msg].
+  - destruct (bank_send (bank s) d to amt); cbn; split; auto; constructor.
+  - destruct (bank_burn (bank s) d amt); cbn; split; auto; constructor.
+  - destruct okb; cbn; split; auto; repeat constructor.
+Qed.
+
+Lemma final_reply_sites e d id1 pl1 res rokK K Kother s_k prev pre tr ok s' :
+  Forall no_reply_entry pre ->
+  (forall c, lookup c (reg s_k) = lookup c (reg prev)) -> (forall c, c <> d -> cstore_get s_k c = cstore_get prev c) ->
+  match run_prog e EReply d None [] (Some (id1, pl1, res)) 0 rokK K s_k with
+  | (trK, Ok (_, sK)) => tr = pre ++ trK /\ ok = true /\ s' = sK
+  | (trK, _) => tr = pre ++ trK /\ ok = false
+  end ->
+  let want := match res with RROk _ _ => true | RRErr => false end in
+  all_ok (reply_site_clauses prev tr ok s' d id1 pl1 K want) /\
+  reply_site_clauses prev tr ok s' d id1 pl1 Kother (negb want) = [].
+Proof.
+  intros Hpre Hb Hc Htop want. split.
+  - unfold reply_site_clauses. destruct (single_admin_sub K) as [[[[[[node id] pl] ro] m'] c]|] eqn:Hs; [|apply all_ok_nil].
+    destruct (option_eqb Bool.eqb (find_reply d id1 pl1 tr) (Some want) && negb ((id =? id1) && beqb pl pl1)) eqn:G; [|apply all_ok_nil].
+    apply andb_true_iff in G. destruct G as [_ G2].
+    apply (site_model_ok 12 e EReply d None [] (Some (id1, pl1, res)) 0 rokK K s_k prev pre tr ok s' _ _ Hs); try assumption.
+    intros tag rest. cbn [find_reply]. rewrite teqb_refl. cbn [andb].
+    destruct ((id =? id1) && beqb pl pl1); [discriminate G2|reflexivity].
+  - assert (Htr : tr = pre ++ trc (run_prog e EReply d None [] (Some (id1, pl1, res)) 0 rokK K s_k)).
+    { destruct (run_prog e EReply d None [] (Some (id1, pl1, res)) 0 rokK K s_k) as [trK [[r sK]| |]]; cbn [trc fst]; apply Htop. }
+    pose proof (run_prog_head e EReply d None [] (Some (id1, pl1, res)) 0 rokK K s_k) as Hh.
+    destruct (serving e s_k d EReply) as [co|].
+    + destruct Hh as [rest Hrest]. rewrite Hrest in Htr.
+      assert (Hf : find_reply d id1 pl1 tr = Some want).
+      { rewrite Htr, (find_reply_skip d id1 pl1 pre _ Hpre). cbn [find_reply]. rewrite teqb_refl, N.eqb_refl, beqb_refl. reflexivity. }
+      unfold reply_site_clauses. destruct (single_admin_sub Kother) as [[[[[[node id] pl] ro] m'] c]|]; [|reflexivity].
+      rewrite Hf. destruct want; reflexivity.
+    + rewrite Hh in Htr. cbn [trc fst] in Htr. apply reply_site_none. rewrite Htr, app_nil_r. apply find_reply_none. exact Hpre.
+Qed.
+
+Lemma reply_sites_prog e entry d sender funds rep cid rok n0 acts0 at0 ev0 d0 id1 pl1 ro1 mo K1 K2 s_p prev tr ok s' :
+  entry <> EReply -> quiet_msg mo = true ->
+  (forall c, lookup c (reg s_p) = lookup c (reg prev)) -> (forall c, cstore_get s_p c = cstore_get prev c) ->
+  match run_prog e entry d sender funds rep cid rok
+                 (Prog n0 acts0 (OResp at0 ev0 d0 (SCons (Sub id1 pl1 ro1 mo K1 K2) SNil))) s_p with
+  | (trp, Ok (_, sp')) => tr = trp /\ ok = true /\ s' = sp'
+  | (trp, _) => tr = trp /\ ok = false
+  end ->
+  all_ok (reply_site_clauses prev tr ok s' d id1 pl1 K1 true ++ reply_site_clauses prev tr ok s' d id1 pl1 K2 false).
+Proof.
+  intros Hent Hq Hb Hc.
+  assert (Hnone : forall tr0, find_reply d id1 pl1 tr0 = None ->
+            all_ok (reply_site_clauses prev tr0 ok s' d id1 pl1 K1 true ++ reply_site_clauses prev tr0 ok s' d id1 pl1 K2 false)).
+  { intros tr0 H. rewrite !reply_site_none by exact H. apply all_ok_nil. }
+  cbn [run_prog]. destruct (lookup d (reg s_p)) as [cd|]; [|intros [-> _]; apply Hnone; reflexivity].
+  destruct (find_code (cd_code cd) (codes e)) as [co|]; [|intros [-> _]; apply Hnone; reflexivity].
+  destruct (negb (ep_available co entry)); [intros [-> _]; apply Hnone; reflexivity|].
+  pose proof (actions_no_calls e s_p n0 acts0 (cstore_get s_p d)) as Hobs.
+  destruct (run_actions e s_p n0 (cstore_get s_p d) acts0) as [tr_a own']. cbn [fst] in Hobs.
+  apply not_call_no_reply in Hobs.
+  set (hdr := RCall n0 entry d sender funds (blk e) (c_tag co) rep).
+  assert (Hhdr : no_reply_entry hdr) by (destruct entry; try exact I; congruence).
+  destruct (verify_response at0 ev0).
+  { intros [-> _]. apply Hnone. apply find_reply_none. constructor; assumption. }
+  set (s2 := cstore_set s_p d own').
+  assert (Hb2 : forall c, lookup c (reg s2) = lookup c (reg prev)) by exact Hb.
+  assert (Hc2 : forall c, c <> d -> cstore_get s2 c = cstore_get prev c).
+  { intros c Hne. unfold s2. rewrite cstore_get_set_other' by exact Hne. apply Hc. }
+  rewrite process_subs_cons, run_sub_spec. unfold reply_run.
+  destruct (quiet_msg_run e d mo s2 Hq) as [Hnr Hst].
+  destruct (run_msg e d mo s2) as [trmo [[[evm dm] s3]| |]] eqn:Emo; cbn [trc outc fst snd] in Hnr, Hst.
+  - destruct Hst as [Hr3 Hcs3].
+    assert (Hb3 : forall c, lookup c (reg s3) = lookup c (reg prev)) by (intros c; rewrite Hr3; apply Hb2).
+    assert (Hc3 : forall c, c <> d -> cstore_get s3 c = cstore_get prev c).
+    { intros c Hne. unfold cstore_get. rewrite Hcs3. apply (Hc2 c Hne). }
+    destruct (wants_ok ro1).
+    + assert (Hpre : Forall no_reply_entry (hdr :: tr_a ++ trmo)).
+      { constructor; [exact Hhdr|]. apply Forall_app. split; assumption. }
+      pose proof (fun tr0 ok0 s0 => final_reply_sites e d id1 pl1 (RROk evm dm) true K1 K2 s3 prev (hdr :: tr_a ++ trmo) tr0 ok0 s0 Hpre Hb3 Hc3) as Hfin.
+      destruct (run_prog e EReply d None [] (Some (id1, pl1, RROk evm dm)) 0 true K1 s3) as [trK [[[ev2 d2] sK]| |]];
+        cbv beta iota zeta; cbn [process_subs]; cbv beta iota zeta.
+      * intros [-> [-> ->]]. specialize (Hfin (hdr :: tr_a ++ (trmo ++ trK) ++ []) true sK).
+        destruct Hfin as [H1 H2].
+        { split; [|auto]. rewrite app_nil_r, app_assoc. reflexivity. }
+        cbn zeta in H1, H2. cbn [negb] in H2. rewrite H2, app_nil_r. exact H1.
+      * intros [-> ->]. specialize (Hfin (hdr :: tr_a ++ trmo ++ trK) false s').
+        destruct Hfin as [H1 H2].
+        { split; [|auto]. rewrite app_assoc. reflexivity. }
+        cbn zeta in H1, H2. cbn [negb] in H2. rewrite H2, app_nil_r. exact H1.
+      * intros [-> ->]. specialize (Hfin (hdr :: tr_a ++ trmo ++ trK) false s').
+        destruct Hfin as [H1 H2].
+        { split; [|auto]. rewrite app_assoc. reflexivity. }
+        cbn zeta in H1, H2. cbn [negb] in H2. rewrite H2, app_nil_r. exact H1.
+    + cbv beta iota zeta. cbn [process_subs]. cbv beta iota zeta. intros [-> _]. apply Hnone.
+      apply find_reply_none. constructor; [exact Hhdr|]. apply Forall_app. split; [exact Hobs|].
+      apply Forall_app. split; [exact Hnr|constructor].
+  - destruct (wants_err ro1).
+    + assert (Hpre : Forall no_reply_entry (hdr :: tr_a ++ trmo)).
+      { constructor; [exact Hhdr|]. apply Forall_app. split; assumption. }
+      pose proof (fun tr0 ok0 s0 => final_reply_sites e d id1 pl1 RRErr false K2 K1 s2 prev (hdr :: tr_a ++ trmo) tr0 ok0 s0 Hpre Hb2 Hc2) as Hfin.
+      destruct (run_prog e EReply d None [] (Some (id1, pl1, RRErr)) 0 false K2 s2) as [trK [[[ev2 d2] sK]| |]];
+        cbv beta iota zeta; cbn [process_subs]; cbv beta iota zeta.
+      * intros [-> [-> ->]]. specialize (Hfin (hdr :: tr_a ++ (trmo ++ trK) ++ []) true sK).
+        destruct Hfin as [H1 H2].
+        { split; [|auto]. rewrite app_nil_r, app_assoc. reflexivity. }
+        cbn zeta in H1, H2. cbn [negb] in H2. rewrite H2. exact H1.
+      * intros [-> ->]. specialize (Hfin (hdr :: tr_a ++ trmo ++ trK) false s').
+        destruct Hfin as [H1 H2].
+        { split; [|auto]. rewrite app_assoc. reflexivity. }
+        cbn zeta in H1, H2. cbn [negb] in H2. rewrite H2. exact H1.
+      * intros [-> ->]. specialize (Hfin (hdr :: tr_a ++ trmo ++ trK) false s').
+        destruct Hfin as [H1 H2].
+        { split; [|auto]. rewrite app_assoc. reflexivity. }
+        cbn zeta in H1, H2. cbn [negb] in H2. rewrite H2. exact H1.
+    + cbv beta iota zeta. intros [-> _]. apply Hnone.
+      apply find_reply_none. constructor; [exact Hhdr|]. apply Forall_app. split; assumption.
+  - cbv beta iota zeta. intros [-> _]. apply Hnone.
+    apply find_reply_none. constructor; [exact Hhdr|]. apply Forall_app. split; assumption.
+Qed.
+
+Lemma reply_sites_model_ok rc t s b op :
+  let x := run_top (senv rc t b) op s in
+  all_ok (reply_sites s op (top_trace x) (is_okb (top_outcome x)) (top_state x)).
+Proof.
+  cbn zeta. set (e := senv rc t b). unfold reply_sites.
+  destruct op as [sender ms|sender m|d p|to amt|sender m|sender m]; try apply all_ok_nil.
+  - destruct m as [| |d p funds| | | | |]; try apply all_ok_nil.
+    destruct p as [n0 acts0 [|at0 ev0 d0 [|[id1 pl1 ro1 mo K1 K2] [|sb2 r2]]]]; try apply all_ok_nil.
+    destruct (quiet_msg mo) eqn:Hq; [|apply all_ok_nil].
+    assert (Hnil : all_ok (reply_site_clauses s [] false s d id1 pl1 K1 true ++ reply_site_clauses s [] false s d id1 pl1 K2 false)).
+    { rewrite !reply_site_none by reflexivity. apply all_ok_nil. }
+    rewrite run_top_exec, exec_runs_after_funds.
+    destruct (negb (is_valid e d)); [exact Hnil|].
+    destruct (move_funds s sender d funds) as [s1| |] eqn:Emf; try exact Hnil.
+    apply move_funds_spec in Emf. destruct Emf as [Ereg [Ecs _]].
+    assert (Hb : forall c, lookup c (reg s1) = lookup c (reg s)) by (intros c; rewrite Ereg; reflexivity).
+    assert (Hc : forall c, cstore_get s1 c = cstore_get s c) by (intros c; unfold cstore_get; rewrite Ecs; reflexivity).
+    pose proof (fun tr0 ok0 s0 => reply_sites_prog e EExec d (Some sender) funds None 0 true n0 acts0 at0 ev0 d0 id1 pl1 ro1 mo K1 K2
+                  s1 s tr0 ok0 s0 ltac:(discriminate) Hq Hb Hc) as H.
+    destruct (run_prog e EExec d (Some sender) funds None 0 true
+                (Prog n0 acts0 (OResp at0 ev0 d0 (SCons (Sub id1 pl1 ro1 mo K1 K2) SNil))) s1) as [trp [[[ev dd] sp']| |]];
+      cbn [top_trace top_outcome top_state fst snd is_okb]; apply H; repeat split; try reflexivity. apply app_nil_r.
+  - destruct p as [n0 acts0 [|at0 ev0 d0 [|[id1 pl1 ro1 mo K1 K2] [|sb2 r2]]]]; try apply all_ok_nil.
+    destruct (quiet_msg mo) eqn:Hq; [|apply all_ok_nil].
+    unfold top_trace, top_outcome, top_state. cbn [run_top].
+    pose proof (fun tr0 ok0 s0 => reply_sites_prog e ESudo d None [] None 0 true n0 acts0 at0 ev0 d0 id1 pl1 ro1 mo K1 K2
+                  s s tr0 ok0 s0 ltac:(discriminate) Hq (fun c => eq_refl) (fun c => eq_refl)) as H.
+    destruct (run_prog e ESudo d None [] None 0 true
+                (Prog n0 acts0 (OResp at0 ev0 d0 (SCons (Sub id1 pl1 ro1 mo K1 K2) SNil))) s) as [trp [[[ev dd] sp']| |]];
+      cbn [fst snd is_okb]; apply H; repeat split; reflexivity.
+Qed.
+
+Lemma failed_raw_model_ok rc t s b op :
+  let x := run_top (senv rc t b) op s in
+  all_ok (match op with
+          | TExec _ _ | TWasmSudo _ _ => [(9, implb (negb (is_okb (top_outcome x))) (chain_eqb (top_state x) s))]
+          | _ => [] end).
+Proof.
+  cbn zeta. destruct op as [sender ms|sender m|d p|to amt|sender m|sender m]; try apply all_ok_nil.
+  - rewrite run_top_exec. destruct (run_msg (senv rc t b) sender m s) as [tr [[r s1]| |]];
+      cbn [top_outcome top_state fst snd is_okb]; (apply all_ok_cons; [|apply all_ok_nil]); try reflexivity;
+      rewrite chain_eqb_refl; reflexivity.
+  - unfold top_outcome, top_state. cbn [run_top].
+    destruct (run_prog (senv rc t b) ESudo d None [] None 0 true p s) as [tr [[r s1]| |]]; cbn [fst snd is_okb];
+      (apply all_ok_cons; [|apply all_ok_nil]); try reflexivity; rewrite chain_eqb_refl; reflexivity.
 Qed.
 
 Lemma top12_model_ok rc t s b op : minv t s ->
@@ -1015,16 +1384,13 @@ Lemma top12_model_ok rc t s b op : minv t s ->
   all_ok (p12_top rc (sg_of (t, s)) b op (top_trace x) (top_outcome x) (top_state x) (chain_eqb (top_state x) s)).
 Proof.
   intros [Hi Hsrt]. cbn zeta. unfold p12_top. cbn [sg_of o_used o_prev fst snd].
-  apply all_ok_app; [|apply all_ok_app].
+  apply all_ok_app; [|apply all_ok_app; [|apply all_ok_app; [|apply all_ok_app; [|apply all_ok_app]]]].
   - destruct op as [sender ms|sender m|c p|to amt|sender m|sender m]; try apply all_ok_nil.
-    destruct (admin_msg m) as [c|] eqn:Em.
-    + exact (direct12_model_ok rc t s b sender m c Em).
-    + destruct m as [| |d p funds| | | | |]; try apply all_ok_nil.
-      destruct p as [node acts [|attrs events data [|[id pl ro m' k1 k2] [|sb2 r2]]]]; try apply all_ok_nil.
-      destruct (clean_prog k1 && clean_prog k2 && simple_admin m') eqn:Ec; [|apply all_ok_nil].
-      destruct (admin_msg m') as [c|] eqn:Em'; [|apply all_ok_nil].
-      apply andb_true_iff in Ec. destruct Ec as [Ec Hsm]. apply andb_true_iff in Ec. destruct Ec as [Hk1 Hk2].
-      exact (nested12_model_ok rc t s b sender d node acts attrs events data id pl ro m' k1 k2 funds c Hk1 Hk2 Hsm Em').
+    destruct (admin_msg m) as [c|] eqn:Em; [|apply all_ok_nil].
+    exact (direct12_model_ok rc t s b sender m c Em).
+  - apply sites_model_ok.
+  - apply reply_sites_model_ok.
+  - apply failed_raw_model_ok.
   - apply served_model_ok.
   - apply all_ok_cons; [apply noadmin_clause_ok; exact Hsrt|apply all_ok_nil].
 Qed.
